@@ -131,6 +131,8 @@ fn state_hashes(out: &RunOut, into: &mut HashSet<u64>) {
 }
 
 pub struct OneRun {
+    /// virtual time of the first violation's event
+    pub viol_t_ms: Option<u64>,
     pub plan: Arc<Plan>,
     pub verdict: Verdict,
     pub digest: u64,
@@ -228,7 +230,9 @@ pub fn execute(check: &dyn Check, plan: Plan, states: Option<&mut HashSet<u64>>)
     if let Some(s) = states {
         state_hashes(&out, s);
     }
+    let viol_t_ms = verdict.violations.first().and_then(|vi| out.entries.iter().find(|e| e.seq == vi.seq).map(|e| e.t_ms));
     let one = OneRun {
+        viol_t_ms,
         verdict,
         digest: out.digest,
         ilv: interleave_hash(&out),
